@@ -533,6 +533,16 @@ def _t_grid(o, r):
     g = o.grid()
     if type(o).__name__ in ("FreeFormDeformation", "StationaryVelocityFreeFormDeformation"):
         return g.resize(tuple(2 * int(s) - 1 for s in g.size()), align_corners=True)
+    if r.random() < 0.4:
+        # same lattice size, other geometry: the parameter tensor keeps its shape (an in-place fast path is possible)
+        k = r.randrange(4)
+        if k == 0:
+            return g.spacing(tuple(float(v) * r.choice([0.5, 2.0]) for v in g.spacing()))
+        if k == 1:
+            return g.center(_vec(r, g.ndim))
+        if k == 2:
+            return g.align_corners(not g.align_corners())
+        return g.direction(_rotm(r, g.ndim))
     return g.resize(tuple(int(s) + r.choice([-1, 1, 2]) for s in g.size())).align_corners(r.choice([True, False]))
 
 
@@ -596,6 +606,7 @@ INPLACE: Dict[str, Dict[str, Callable]] = {
         "clear_buffers": lambda o, r: o.clear_buffers(),
         "unlink_": lambda o, r: o.unlink_(),
         "remove_update_hook": lambda o, r: o.remove_update_hook(),
+        "fit": lambda o, r: None,  # built in op_inplace (needs a tracked flow argument)
     },
 }
 
@@ -987,7 +998,25 @@ class FrameWorld:
         if fn is None:
             return StepResult("skipped")
         r = random.Random(op["seed"])
-        status, result, viol = self.run_op(lambda: fn(obj, r), oid, "mutate", "inplace:" + op["name"], None)
+        extra = None
+        if op["name"] == "fit":
+            # fit(flow): the flow argument is an input; the fitted transform must not end up sharing its storage
+            try:
+                g = obj.grid().clone()
+                if r.random() < 0.4:
+                    g = g.resize(tuple(int(s_) + 1 for s_ in g.size()))
+                data = gen.randn(op["seed"], (1, g.ndim) + tuple(g.shape), 0.02)
+                flow = FlowFields(data, g, r.choice([None, Axes.from_grid(g), Axes.WORLD, Axes.CUBE_CORNERS]))
+            except AssertionError:
+                return StepResult("expected_error", "inplace:fit:setup")  # float32 self-check of the pure Grid.resize
+            extra = {"fit:flow": flow}
+            fn = lambda o, r_, flow=flow: o.fit(flow, steps=r_.choice([1, 2]), lr=0.01)
+        status, result, viol = self.run_op(lambda: fn(obj, r), oid, "mutate", "inplace:" + op["name"], None, extra=list(extra.items()) if extra else None)
+        if extra is not None and status == "ok":
+            shared = {x_ for x_ in resources(fingerprint(obj)) & resources(fingerprint(extra["fit:flow"])) if x_[0] == "S"}
+            self.c["checks"]["argument_not_captured"] += 1
+            if shared:
+                viol.append(Violation("C15", "argument-captured", f"argument-captured/inplace:fit/{tag}", {"shared_storages": len(shared)}))
         self.api_note(f"{tag}.{op['name']}", "called" if status == "ok" else status)
         if status == "ok":
             self.nontrivial = True
